@@ -304,8 +304,8 @@ def fileLang {σ : Type} (lang : Option (List Char) → σ) (minus plus : Option
   if plus.isSome then lang plus else lang minus
 
 /-- `Painter::new` satisfies the invariant, so every reachable state does (`step_inv`). -/
-theorem initial_state_inv {σ : Type} (lang : Option (List Char) → σ) :
-    Lifetime.Inv .start (initial lang) := by
+theorem initial_state_inv {σ : Type} (lang : Option (List Char) → σ) (unified : Bool) :
+    Lifetime.Inv unified .start (initial lang unified) := by
   simp [Lifetime.Inv, initial, Consec]
 
 /-- Along any well-formed event sequence, from any state in which the buffered lines are
@@ -315,37 +315,64 @@ current file's name; fresh for a fragment; fed with the preceding lines of the s
 nothing else, for a hunk line. (Breaks when a generated statement sequence loses or guards a
 `set_syntax` / `set_highlighter`.) -/
 theorem highlighter_follows_current_file {σ : Type} (lang : Option (List Char) → σ)
-    (ph : Phase) (s : State σ) (evs : List Event) (hi : Lifetime.Inv ph s) (hw : wf ph evs = true) :
+    (unified : Bool) (ph : Phase) (s : State σ) (evs : List Event)
+    (hi : Lifetime.Inv unified ph s) (hw : wf unified ph evs = true) :
     ∀ p ∈ (run lang s evs).2, p.used = some p.expected :=
-  run_inv lang evs ph s hi hw
+  run_inv lang unified evs ph s hi hw
 
 /-- **Whatever preceded** (`s`: any state satisfying the invariant, i.e. any history), the
-elements painted for a file section `--- m` / `+++ p` / hunks… use the language of that
-file's name, and each hunk-header fragment a fresh highlighter. -/
+elements painted for a file section `--- m` / `+++ p` / hunks… of **git** input use the language
+of that file's *parsed* name — whatever cutting the raw header line at TABs and spaces would give
+(`mkm`, `mkp`: names with spaces, quoted names) — and each hunk-header fragment a fresh
+highlighter. (Breaks when a generated statement sequence loses or guards a `set_syntax` /
+`set_highlighter`, or takes the name from the raw line for git input.) -/
 theorem language_depends_on_current_file_only {σ : Type} (lang : Option (List Char) → σ)
-    (s : State σ) (hs : Lifetime.Inv .start s) (m p : Option (List Char)) (body : List Event)
-    (hnf : ∀ e ∈ body, isFileEvent e = false) (hw : wf .header body = true) :
-    ∀ q ∈ (run lang (run lang s [.fileMinus m, .filePlus p]).1 body).2,
+    (s : State σ) (hs : Lifetime.Inv false .start s) (m p mkm mkp : Option (List Char))
+    (body : List Event)
+    (hnf : ∀ e ∈ body, isFileEvent e = false) (hw : wf false .header body = true) :
+    ∀ q ∈ (run lang (run lang s [.fileMinus m mkm, .filePlus p mkp]).1 body).2,
       ∃ n, q.used = some (fileLang lang m p, n) ∧ (q.kind = .fragment → n = 0) := by
-  have hm : minusHeaderStmts = [(.always, .setSyntax .minus), (.always, .paintBuffered)] := by decide
-  have hp : plusHeaderStmts = [(.ifPlusNotDevNull, .setSyntax .plus), (.always, .paintBuffered)] := by
-    decide
-  obtain ⟨_, i1⟩ := step_inv lang .start s (.fileMinus m) hs rfl
-  obtain ⟨_, i2⟩ := step_inv lang .header _ (.filePlus p) i1 (by simp [allowed])
-  have hs1 : (run lang s [.fileMinus m, .filePlus p]).1 =
-      (step lang (step lang s (.fileMinus m)).1 (.filePlus p)).1 := by simp [run]
-  have hcur : (run lang s [.fileMinus m, .filePlus p]).1.cur = fileLang lang m p := by
+  obtain ⟨_, i1⟩ := step_inv lang false .start s (.fileMinus m mkm) hs rfl
+  obtain ⟨_, i2⟩ := step_inv lang false .header _ (.filePlus p mkp) i1 (by simp [allowed])
+  have hs1 : (run lang s [.fileMinus m mkm, .filePlus p mkp]).1 =
+      (step lang (step lang s (.fileMinus m mkm)).1 (.filePlus p mkp)).1 := by simp [run]
+  -- the specification fields: `cur` follows the parsed names by definition of `step`;
+  -- the buffer is empty after the flush that ends both header handlers (from the invariant)
+  have cur_stmts : ∀ (t : State σ) (l : List (Guard × Stmt)), (execStmts lang t l).1.cur = t.cur := by
+    intro t l
+    induction l generalizing t with
+    | nil => rfl
+    | cons x rest ih =>
+      obtain ⟨g, st⟩ := x
+      simp only [execStmts]
+      split
+      · rw [ih]; cases st <;> try rfl
+        rename_i side src; cases side <;> cases src <;> rfl
+      · exact ih t
+  have hcur : (run lang s [.fileMinus m mkm, .filePlus p mkp]).1.cur = fileLang lang m p := by
     rw [hs1]
-    cases p <;> simp [step, hm, hp, execStmts, evalGuard, execStmt, fileLang]
-  have hbuf : (run lang s [.fileMinus m, .filePlus p]).1.buffered = [] := by
-    rw [hs1]
-    cases p <;> simp [step, hm, hp, execStmts, evalGuard, execStmt]
+    simp only [step, cur_stmts, fileLang]
   intro q hq
-  have hok := run_inv lang body .header _ (by rw [hs1]; exact i2) hw q hq
+  have hok := run_inv lang false body .header _ (by rw [hs1]; exact i2) hw q hq
+  -- every buffered expectation left is consistent with `cur` … there is none: paintBuffered ran
+  have hbuf : (run lang s [.fileMinus m mkm, .filePlus p mkp]).1.buffered = [] := by
+    rw [hs1]
+    have hpl : plusHeaderStmts = [(.ifPlusNotDevNull, .setSyntax .plus .parsedPath),
+        (.always, .paintBuffered)] := by decide
+    cases p <;> simp [step, hpl, execStmts, evalGuard, execStmt]
   obtain ⟨e1, e2⟩ := expected_is_cur lang body _ (fileLang lang m p) hcur
     (by rw [hbuf]; intro e he; cases he) hnf q hq
   refine ⟨q.expected.2, ?_, e2⟩
   rw [hok, ← e1]
+
+/-- The same for plain `diff -u` input, where the name is cut from the raw `--- ` line: holds
+under the assumption (part of `wf true`) that this gives the parsed name, i.e. for paths
+without spaces. -/
+theorem language_depends_on_current_file_only_plain_diff {σ : Type}
+    (lang : Option (List Char) → σ) (s : State σ) (hs : Lifetime.Inv true .start s)
+    (evs : List Event) (hw : wf true .start evs = true) :
+    ∀ q ∈ (run lang s evs).2, q.used = some q.expected :=
+  run_inv lang true evs .start s hs hw
 
 /-- The places that set the syntax or re-create the highlighter are exactly the known ones
 (the three modelled handlers for diffs; grep, blame, `git show` and `--show-colors` have their own). -/
@@ -364,10 +391,11 @@ are painted by a fresh Rust highlighter; the leftover `.txt` lines by the `.txt`
 example :
     let lang : Option (List Char) → String := fun n =>
       if n = some "a.rs".toList then "Rust" else "Plain Text"
-    ((run lang (initial lang)
-        [.fileMinus (some "n.txt".toList), .filePlus (some "n.txt".toList), .hunkHeader,
+    ((run lang (initial lang false)
+        [.fileMinus (some "n.txt".toList) (some "n.txt".toList),
+         .filePlus (some "n.txt".toList) none, .hunkHeader,
          .contextLine, .changedLine false, .changedLine false,
-         .fileMinus (some "a.rs".toList), .filePlus (some "a.rs".toList), .hunkHeader,
+         .fileMinus (some "a.rs".toList) (some "a".toList), .filePlus (some "a.rs".toList) none, .hunkHeader,
          .contextLine, .changedLine false, .flush]).2.map fun q => (q.kind, q.used)) =
     [(.fragment, some ("Plain Text", 0)), (.line, some ("Plain Text", 0)),
      (.line, some ("Plain Text", 1)), (.line, some ("Plain Text", 2)),
